@@ -304,7 +304,7 @@ let cbor_fmt : fmt = {
   parse = (fun mode vfail chunks ->
       let r =
         if mode = "P" || mode = "S" then run_parse (fail_opt vfail) (List.concat chunks)
-        else if mode = "R" then run_chunks (fail_opt vfail) (List.filter (fun c -> c <> []) chunks)
+        else if mode = "R" || mode = "E" then run_chunks (fail_opt vfail) (List.filter (fun c -> c <> []) chunks)
         else run_chunks (fail_opt vfail) chunks in
       res_obs (match r with Ok x -> Ok (x, ()) | Panic w -> Panic w | OutOfFuel -> OutOfFuel | Err e -> Err e));
   dec = (fun kind nexts script ->
@@ -366,7 +366,7 @@ let ubj_fmt : fmt = {
   parse = (fun mode vfail chunks ->
       let r =
         if mode = "P" || mode = "S" then urun_parse (fail_opt vfail) (List.concat chunks)
-        else if mode = "R" then urun_chunks (fail_opt vfail) (List.filter (fun c -> c <> []) chunks)
+        else if mode = "R" || mode = "E" then urun_chunks (fail_opt vfail) (List.filter (fun c -> c <> []) chunks)
         else urun_chunks (fail_opt vfail) chunks in
       ubj_obs3 r);
   dec = (fun kind nexts script ->
@@ -498,7 +498,7 @@ let json_fmt : fmt = {
   parse = (fun mode vfail chunks ->
       let r =
         if mode = "P" || mode = "S" then jrun_parse parse_float_oracle (fail_opt vfail) (List.concat chunks)
-        else if mode = "R" then jrun_chunks parse_float_oracle (fail_opt vfail) (List.filter (fun c -> c <> []) chunks)
+        else if mode = "R" || mode = "E" then jrun_chunks parse_float_oracle (fail_opt vfail) (List.filter (fun c -> c <> []) chunks)
         else jrun_chunks parse_float_oracle (fail_opt vfail) chunks in
       json_obs3 r);
   dec = (fun kind nexts script ->
@@ -720,6 +720,7 @@ let parse_case (f : fmt) (input : string) (obs0 : string) : verdict =
   match words input with
   | mode :: vfail :: chunks ->
       let vfail = int_of_string vfail in
+      let vfail = if vfail <= -2 then - vfail - 2 else vfail in   (* <= -2: the visitor fails with io.EOF as its error *)
       let chunks = chunks_of_toks chunks in
       let model = f.parse mode vfail chunks in
       let oracle = ref [] in
@@ -734,7 +735,7 @@ let parse_case (f : fmt) (input : string) (obs0 : string) : verdict =
             oracle := (if f.extref then (match find_flag "REF" flagl with Some r -> ext_ref_oracle f r evs verdict | None -> [])
                        else ref_oracle f (List.concat chunks) evs verdict);
             (match depth with
-             | Some d when verdict = "ok" && mode <> "R" && not (starts_with d f.idle) ->
+             | Some d when verdict = "ok" && mode <> "R" && mode <> "E" && not (starts_with d f.idle) ->
                  oracle := ("C17", "parser stacks not idle after complete documents: " ^ d) :: !oracle
              | _ -> ())
           end else begin
